@@ -109,7 +109,7 @@ func VHAlgebra() {
 	if !v.Bool("alias") {
 		b = VGSmall()
 	}
-	sets.VAlgStep(sets.VAlg{A: a, B: b, Ordered: true,
+	sets.VAlgStep(sets.VAlg{A: a, B: b, Inv: func(c any) { rbt.VInv(c.(*Set[int]).tree) }, Has: func(c any, x int) bool { return c.(*Set[int]).Contains(x) }, Ordered: true,
 		Apply: func(op int) any {
 			switch op {
 			case 0:
@@ -173,5 +173,11 @@ func VHString() {
 // VHHistory: D operations in a row from the constructor (see VMapHistory).
 func VHHistory() {
 	s := NewWith[int](vl.Cmp)
-	sets.VSetHistory(s, false, "TreeSet", func() { rbt.VInv(s.tree) })
+	sets.VSetHistory(s, false, "TreeSet", func() {
+		rbt.VInv(s.tree)
+		vals := s.Values()
+		for i := 1; i < len(vals); i++ {
+			v.Assert(vl.Less(vals[i-1], vals[i]), "C02:values-strictly-ascending")
+		}
+	})
 }
